@@ -10,6 +10,9 @@ import (
 
 // debugging aid: VERIF_C12_TRACE=1 prints every statement and observation of a replayed sequence
 func c12Trace(s c12Seq) {
+	if os.Getenv("VERIF_C12_CK") != "" {
+		c12CKProbe()
+	}
 	if os.Getenv("VERIF_C12_TRACE") == "" {
 		return
 	}
